@@ -1,3 +1,143 @@
-(* C18 — statements are added when the corresponding facts file lands *)
-From SV Require Import Bytes Lexer Tables ArgCheck Machine Printer GenTables.
-Theorem C18_placeholder : True. Proof. exact I. Qed.
+(* C18 — parse errors point at the offending place.
+
+   Model: sieve/Lexer.v ([lineno]/[colno] = Lexer.curlineno/curcolno, [next_token]),
+   sieve/Machine.v ([parse] returns Reject e pos tlen with pos = lexer.pos and tlen = len(tvalue)
+   at the time the error is raised; [error_pos]).  Proofs: sieve/PositionFacts.v.
+     (a) (line, column) against an independent specification: the text split at LF;
+     (b) a rejection is raised at a token of the text (its start offset and length), at the
+         offset where no lexer rule matches, or at the end of the text — so a token-level error
+         reports the line/column of the first byte of the offending token and its length;
+     (c) the machine is a left fold over the token list that stops at the first failure, so the
+         report depends only on the tokens up to the failing one (prefix determinism) and can
+         never lie before a token the machine has not reached.
+   Which token is "the offending one" for each error category (unknown command, extension not
+   loaded, unexpected tag, surplus argument, test in command position ...) is the content of
+   [process]; the categories are exercised against the implementation by the check with the
+   expected offset computed independently.  'never before the first invalidating token' in the
+   viable-prefix sense needs C01_complete and is checked on the implementation (mutants). *)
+From Coq Require Import String.
+From Coq Require Import List NArith Bool Arith.
+From SV Require Import Bytes Lexer Tables ArgCheck ArgSpec Machine Printer GenTables.
+Import ListNotations.
+Local Open Scope nat_scope.
+From SV Require Import PositionFacts.
+
+(* the specification of lines: split_lf is the only LF-free, non-empty decomposition that joins back to the text *)
+Theorem C18_split_unique :
+  forall (ls : list (list N)) (l : bytes),
+  ls <> [] -> Forall (fun s : list N => ~ In 10%N s) ls -> join_lf ls = l -> ls = split_lf l.
+Proof. exact PositionFacts.split_lf_unique. Qed.
+Print Assumptions C18_split_unique.
+
+(* lineno/colno of an offset designate, in the split text, line L and column C, and the offset is recovered from (L, C) *)
+Theorem C18_line_column_address :
+  forall (text : list N) (pos : nat),
+  pos <= Datatypes.length text ->
+  let ls := split_lf text in
+  let L := lineno text pos in
+  let C := colno text pos in
+  1 <= L /\
+  1 <= C /\
+  L - 1 < Datatypes.length ls /\
+  C - 1 <= Datatypes.length (nth (L - 1) ls []) /\ pos = line_offset ls (L - 1) + (C - 1).
+Proof. exact PositionFacts.position_address. Qed.
+Print Assumptions C18_line_column_address.
+
+(* column = 1 + distance to the start of the line; no LF in between *)
+Theorem C18_column_from_line_start :
+  forall (text : list N) (pos : nat),
+  pos <= Datatypes.length text ->
+  colno text pos = S (pos - line_start text pos) /\
+  line_start text pos <= pos /\
+  (line_start text pos = 0 \/ nth (line_start text pos - 1) text 0%N = 10%N) /\
+  (forall i : nat, line_start text pos <= i < pos -> nth i text 0%N <> 10%N).
+Proof. exact PositionFacts.colno_line_start. Qed.
+Print Assumptions C18_column_from_line_start.
+
+(* every token is a non-empty slice of the text at its recorded offset *)
+Theorem C18_token_slice :
+  forall (text : bytes) (t : token),
+  In t (fst (lex text)) ->
+  t_val t = firstn (Datatypes.length (t_val t)) (skipn (t_pos t) text) /\
+  t_pos t + Datatypes.length (t_val t) <= Datatypes.length text /\
+  1 <= Datatypes.length (t_val t).
+Proof. exact PositionFacts.lex_token_at. Qed.
+Print Assumptions C18_token_slice.
+
+(* a lexical error is reported at the first non-space byte where no rule matches *)
+Theorem C18_lexical_error_place :
+  forall (text : bytes) (p : nat),
+  snd (lex text) = Some p ->
+  p < Datatypes.length text /\
+  scan_rules (skipn p text) = None /\ is_space (nth p text 0%N) = false.
+Proof. exact PositionFacts.lex_error_at. Qed.
+Print Assumptions C18_lexical_error_place.
+
+(* the lazy lexer/parser loop is a fold over the token list *)
+Theorem C18_lazy_loop_is_fold :
+  forall (T : tables) (text : bytes),
+  parse T text =
+  run_tokens (2 * Datatypes.length text + 2) T (fst (lex text)) (snd (lex text))
+    (Datatypes.length text) 0 p_init.
+Proof. exact PositionFacts.parse_run_tokens. Qed.
+Print Assumptions C18_lazy_loop_is_fold.
+
+(* every rejection: lexical error place, end of text, or start and length of a token of the text (with a token-level error) *)
+Theorem C18_reject_place :
+  forall (T : tables) (text : bytes) (e : perr) (pos tlen : nat),
+  parse T text = Reject e pos tlen ->
+  e = EUnknownToken /\
+  snd (lex text) = Some pos /\
+  pos < Datatypes.length text /\
+  scan_rules (skipn pos text) = None /\ is_space (nth pos text 0%N) = false \/
+  (e = EEndExpected \/ e = EEndUnfinished) /\
+  pos = Datatypes.length text /\ snd (lex text) = None \/
+  token_error e /\
+  (exists t : token,
+     In t (fst (lex text)) /\
+     t_pos t = pos /\
+     tlen = Datatypes.length (t_val t) /\
+     t_val t = firstn tlen (skipn pos text) /\
+     pos + tlen <= Datatypes.length text /\ 1 <= tlen).
+Proof. exact PositionFacts.reject_position_strong. Qed.
+Print Assumptions C18_reject_place.
+
+(* error_pos = (line, column, length) of that place, as an address in the split text *)
+Theorem C18_error_pos :
+  forall (T : tables) (text : bytes) (e : perr) (pos tlen : nat),
+  parse T text = Reject e pos tlen ->
+  let ls := split_lf text in
+  let L := lineno text pos in
+  let C := colno text pos in
+  error_pos text (parse T text) = Some (L, C, tlen) /\
+  pos <= Datatypes.length text /\
+  L - 1 < Datatypes.length ls /\
+  C - 1 <= Datatypes.length (nth (L - 1) ls []) /\
+  pos = line_offset ls (L - 1) + (C - 1) /\ C = S (pos - line_start text pos).
+Proof. exact PositionFacts.error_pos_address. Qed.
+Print Assumptions C18_error_pos.
+
+(* no reported position depends on what follows the failing token *)
+Theorem C18_prefix_determinism :
+  forall (T : tables) (text1 text2 : bytes) (k : nat) (e : perr) (pos tlen : nat),
+  firstn k (fst (lex text1)) = firstn k (fst (lex text2)) ->
+  rejects_within T text1 k e pos tlen ->
+  parse T text1 = Reject e pos tlen /\
+  (parse T text2 = Reject e pos tlen \/ parse T text2 = OutOfFuel) /\
+  (Datatypes.length text1 <= Datatypes.length text2 -> parse T text2 = Reject e pos tlen).
+Proof. exact PositionFacts.prefix_determinism. Qed.
+Print Assumptions C18_prefix_determinism.
+
+(* non-vacuity: each token-level category on a concrete script, position = first byte of the token *)
+Example C18_unknown_command :
+  error_pos (bs "keep;" ++ [10%N] ++ bs "  foo ""a"";") (parse gen_tables (bs "keep;" ++ [10%N] ++ bs "  foo ""a"";"))
+  = Some (2, 3, 3).
+Proof. vm_compute. reflexivity. Qed.
+
+Example C18_tag_extension :
+  error_pos (bs "redirect :copy ""a"";") (parse gen_tables (bs "redirect :copy ""a"";")) = Some (1, 10, 5).
+Proof. vm_compute. reflexivity. Qed.
+
+Example C18_surplus_string :
+  error_pos (bs "stop ""x"";") (parse gen_tables (bs "stop ""x"";")) = Some (1, 6, 3).
+Proof. vm_compute. reflexivity. Qed.
